@@ -34,6 +34,9 @@ pub fn check_case(c: &LoopCase) -> Verdict {
     };
     let zero = c.sample_count == Some(0) || c.sample_size == Some(0) || c.max_time == Some((0, 0));
     let o = run_loop(c);
+    if o.abandoned {
+        return Verdict::Inconclusive("runaway run (event budget)".into());
+    }
     if let Err(e) = &o.result {
         return Verdict::fail("unexpected-panic", format!("loop panicked: {e}\ncase: {c:?}"));
     }
